@@ -575,7 +575,34 @@ def s_io(v):
 
 s_io.n = 10
 
+def s_nexus(v):
+    from scippneutron.chopper import extract_chopper_from_nexus
+    from scippneutron.chopper.disk_chopper import DiskChopperType
+
+    unit = ['deg', 'rad'][v % 2]
+    log = sc.DataGroup({'value': sc.DataArray(sc.array(dims=['time'], values=[14.0], unit='Hz'), coords={'time': sc.array(dims=['time'], values=[0], unit='s')})})
+    raw = sc.DataGroup({
+        'type': DiskChopperType.single,
+        'position': sc.vector([0.0, 0.0, 2.0], unit='m'),
+        'rotation_speed': log if v // 2 % 2 else sc.scalar(14.0, unit='Hz'),
+        'beam_position': sc.scalar(45.0, unit='deg').to(unit=unit),
+        'phase': sc.scalar(-20.0, unit='deg').to(unit=unit),
+        'slit_edges': sc.array(dims=['slit'], values=[0.0, 60.0, 124.0, 126.0], unit='deg').to(unit=unit),
+        'slit_height': sc.scalar(0.4, unit='m'),
+        'radius': sc.scalar(0.5, unit='m'),
+        'top_dead_center': sc.DataGroup({'time': sc.array(dims=['time'], values=[1, 2], unit='s')}),
+    })
+    if v // 4 % 2 == 0:
+        return (lambda chopper: extract_chopper_from_nexus(chopper)), {'chopper': raw}, 'extract'
+    processed = extract_chopper_from_nexus(raw)
+    return (lambda chopper: DiskChopper.from_nexus(chopper).time_offset_open(pulse_frequency=sc.scalar(14.0, unit='Hz'))), {'chopper': processed}, 'from_nexus'
+
+
+s_nexus.n = 8
+
+
 OBJECT_SITES = {
+    'chopper.nexus': s_nexus,
     'core.convert': s_convert,
     'core.convert/binned': s_convert_binned,
     'beamline_components.*': s_components,
